@@ -37,11 +37,13 @@ EXPLANATION = ("correspondence: the Lean model is evaluated at Float and at exac
                "ellipsoid and cylinder: solid), | |p1-p2| - d | <= 1e-6*L, and d == 0 => |p1-p2| <= 1e-9*L, "
                "with L = max(1, largest feature size, centre distance)")
 PARTIAL = {
-    "planeToEllipsoid_spec / planeToCylinder_spec":
-        "only the tail of plane_to_ellipsoid / plane_to_cylinder after their two support-function calls is modelled "
-        "(planeToSupportPair); planeToSupportPair_spec is proved for every convex body K whose support points in the "
-        "directions -n, +n are supplied; its instantiation with support_function_ellipsoid / support_function_cylinder "
-        "needs C03.ellipsoid_support / C03.cylinder_support (another vertical) and is not composed in Lean here",
+    "planeToEllipsoid_spec / planeToCylinder_spec (closed in Lean; no driver)":
+        "D3.C10Link defines planeToEllipsoid / planeToCylinder as the Python compositions (support_function_ellipsoid / "
+        "support_function_cylinder of C03 + planeToSupportPair) and proves _ok, _feas, _spec, _spec_of_side and "
+        "_spec_orthonormal (no band hypothesis for an orthonormal pose and aspect ratio within 1000 resp. 999); "
+        "C10LinkSets restates them on C13's sets. The two compositions live in a Proofs file and are not wired to the "
+        "Float/Rat driver: the correspondence covers their parts (support functions: C03; tail: planeToSupportPair) and "
+        "the oracle the whole",
     "f_opt for the 22 functions outside the line/plane family":
         "point/line/segment to triangle, rectangle, box, disk, circle, ellipsoid, cylinder and the polygon pairs are "
         "not modelled in this vertical (polygon/solid family: D3/Model/DistPoly.lean of C11); they are covered here by "
